@@ -5,6 +5,8 @@ import KmipModel.Expect
 import KmipGen.Consts
 import KmipGen.Schema
 import Driver.SessionIO
+import KmipModel.Discover
+import KmipModel.Accept
 /-
   kvdriver: one request per input line, one reply per output line.  Runs the executable model and the
   executable specifications on the inputs the Go harness also gives to the real code.
@@ -67,6 +69,32 @@ def c19Report : String :=
       s!"nesting|{t} (written via {via})|-|{c}={regTag c}|{h}"
   s!"ok {KmipGen.fieldTable.length + pairs.length} " ++ ";".intercalate (fieldBad ++ lenBad ++ nestBad)
 
+def parseVersions (s : String) : Option (List (Nat × Nat)) :=
+  if s == "-" then some [] else
+  (s.splitOn ",").mapM fun v =>
+    match v.splitOn "." with
+    | [a, b] => do pure ((← a.toNat?), (← b.toNat?))
+    | _ => none
+
+def showVersions (l : List (Nat × Nat)) : String :=
+  if l.isEmpty then "-" else ",".intercalate (l.map fun (a, b) => s!"{a}.{b}")
+
+def parseOutcome (s : String) : Option Accept.Outcome :=
+  match s.toList with
+  | ['T'] => some .temporary
+  | ['P'] => some .permanent
+  | ['S'] => some .shutdown
+  | 'K' :: rest => (String.ofList rest).toNat?.map .ok
+  | 'L' :: rest => (String.ofList rest).toNat?.map .late
+  | _ => none
+
+def showAcceptEv : Accept.Ev → String
+  | .sleep ms => s!"sleep:{ms}"
+  | .start c n => s!"start:{c}:{n}"
+  | .closeLate c => s!"closeLate:{c}"
+  | .returnNil => "return:nil"
+  | .returnErr => "return:err"
+
 def step (line : String) : String :=
   match tokens line with
   -- enctop <FV tokens of a DynV>: Encoder.Encode(v)
@@ -98,6 +126,20 @@ def step (line : String) : String :=
       | none => "none"
     | _, _ => "bad-op"
   | "session" :: rest => runSession rest
+  -- discover SUP OFFER: the built-in handler's reply for a configured list and an offer (SUP "-" = not configured)
+  | ["discover", sup, offer] =>
+    match parseVersions sup, parseVersions offer with
+    | some s, some o =>
+      let h : Discover.Heap := { next := 10 }
+      let (cfg, h') := Discover.configure h { arr := 1, elems := Discover.defaultVersions } { arr := (if s.isEmpty then 0 else 2), elems := s }
+      let (rep, _) := Discover.discover h' cfg o
+      "ok " ++ showVersions rep.elems ++ (if rep.arr == cfg.arr && rep.arr != 0 then " ALIAS" else "")
+    | _, _ => "bad-op"
+  -- accept O1 O2 …: Serve's reactions to a sequence of Accept outcomes
+  | "accept" :: rest =>
+    match rest.mapM parseOutcome with
+    | some os => "ok " ++ ";".intercalate ((Accept.serveAccepts os).map showAcceptEv)
+    | none => "bad-op"
   | ["c18"] => c18Report
   | ["c19"] => c19Report
   | _ => "bad-op"
